@@ -140,7 +140,27 @@ def _matricise_roles(prog: Program, res: Result) -> None:
     fi = prog.func("tensor.tensor.to_tenmat")
     desc = "the dense matricisation lays the data out by the permutation (rdims, cdims): every definition of that permutation is built from them, rows first"
     tr = [c for c in ast.walk(fi.node) if isinstance(c, ast.Call) and (dotted(c.func) or "").split(".")[-1] == "transpose" and len(c.args) >= 2]
-    if not tr or not isinstance(tr[0].args[1], ast.Name):
+    mv = [c for c in ast.walk(fi.node) if isinstance(c, ast.Call) and (dotted(c.func) or "").split(".")[-1] == "moveaxis" and len(c.args) == 3]
+
+    def _is_mode_range(e):
+        t = fi.rtext(e).replace(" ", "")
+        return t in ("np.arange(self.ndims)", "np.arange(0,self.ndims)", "range(self.ndims)", "np.arange(len(self.shape))", "range(len(self.shape))",
+                     "list(range(self.ndims))")
+    inverse_move = None
+    if not tr and mv:
+        # np.moveaxis(a, source, destination): with destination = 0..n-1 it is transpose(a, source); with source = 0..n-1 it sends axis k to
+        # position destination[k], which is the transposition by the INVERSE of destination
+        src, dst = mv[0].args[1], mv[0].args[2]
+        if _is_mode_range(dst) and isinstance(src, ast.Name):
+            tr = [ast.Call(func=mv[0].func, args=[mv[0].args[0], src], keywords=[])]
+            ast.copy_location(tr[0], mv[0])
+        elif _is_mode_range(src):
+            inverse_move = mv[0]
+    if inverse_move is not None:
+        res.bad("PS", fi.short, desc, prog.loc(fi, inverse_move),
+                f"`{ast.unparse(inverse_move)[:80]}` sends axis k to position {ast.unparse(inverse_move.args[2])}[k]: the data is laid out by the INVERSE of the "
+                "recorded mode order (wrong for every order that is not its own inverse)")
+    elif not tr or not isinstance(tr[0].args[1], ast.Name):
         res.undecided("PS", fi.short, desc, prog.loc(fi), "transpose(self.data, <name>) not found")
     else:
         pname = tr[0].args[1].id
